@@ -10,6 +10,62 @@ use crate::ri;
 
 pub struct C01;
 
+/// Plant 1-3 statements whose expression divides by a literal zero at random places.
+fn plant_errors(b: &mut Built, ch: &mut Ch) -> usize {
+    use crate::model::*;
+    let cols = b.cols.clone();
+    let mut next_id = b.prog.row_count();
+    let mut planted = 0;
+    let mut want = 1 + ch.upto(3);
+    fn bad() -> Expr {
+        Expr::bin(BinOp::Div, Expr::lit(7), Expr::lit(0))
+    }
+    fn go(bl: &mut Vec<Stmt>, ch: &mut Ch, cols: &[Col], next_id: &mut usize, planted: &mut usize, want: &mut usize, depth: usize) {
+        let mut i = 0;
+        while i <= bl.len() {
+            if *want > 0 && ch.chance(1, 4) {
+                let row = |id: usize| -> Vec<Entry> {
+                    let _ = id;
+                    cols.iter()
+                        .enumerate()
+                        .map(|(k, c)| if k == 0 { Entry::Paren(bad()) } else if c.role == ColRole::ExpectedOnly { Entry::X(true) } else { Entry::Num(0, Radix::Dec) })
+                        .collect()
+                };
+                let st = match ch.upto(4) {
+                    0 => {
+                        *next_id += 1;
+                        Stmt::Row(*next_id - 1, row(0))
+                    }
+                    1 => Stmt::Let("hz".into(), Expr::bin(BinOp::Rem, Expr::lit(7), Expr::lit(0))),
+                    2 => {
+                        *next_id += 1;
+                        Stmt::Repeat(Expr::lit(2), *next_id - 1, row(0))
+                    }
+                    _ => {
+                        *next_id += 1;
+                        Stmt::Loop("zq".into(), bad(), vec![Stmt::Row(*next_id - 1, row(0))])
+                    }
+                };
+                bl.insert(i, st);
+                *planted += 1;
+                *want -= 1;
+                i += 1;
+            }
+            if i < bl.len() {
+                if let Stmt::Loop(_, _, inner) | Stmt::While(_, inner) = &mut bl[i] {
+                    if depth < 4 {
+                        go(inner, ch, cols, next_id, planted, want, depth + 1);
+                    }
+                }
+            }
+            i += 1;
+        }
+    }
+    go(&mut b.prog.stmts, ch, &cols, &mut next_id, &mut planted, &mut want, 0);
+    b.analysis = analyse(&b.prog);
+    planted
+}
+
 pub fn flow_cfg() -> Cfg {
     let mut c = Cfg::flow();
     // what operators mean and how they bind is C08's business, literal radix C20's, which
@@ -36,7 +92,7 @@ impl Property for C01 {
         }
     }
     fn required_classes(&self) -> Vec<&'static str> {
-        vec!["nesting>=2", "bound<=0-reached", "shadowing", "let-in-loop-body", "loop-in-while", "reads-device", "repeat", "bits()", "bits(k>=33)", "bits(0)"]
+        vec!["nesting>=2", "bound<=0-reached", "shadowing", "let-in-loop-body", "loop-in-while", "reads-device", "repeat", "bits()", "bits(k>=33)", "bits(0)", "planted-error-statements", "row-in-loop-after-error-item"]
     }
     fn assumptions(&self) -> Vec<&'static str> {
         vec![
@@ -53,6 +109,14 @@ impl Property for C01 {
         cfg.bus = Ch::new(&s[1]).chance(1, 12);
         let mut built = gen_case(&mut Ch::new(&s[0]), &cfg);
         parenthesise_program(&mut built.prog.stmts);
+        // In a third of the cases statements that cannot be evaluated (division by literal
+        // zero) are planted anywhere in the program: a row, a `let`, a repeat row, a loop
+        // bound. Each yields an error item; the caller keeps iterating, and the sequential
+        // reading goes on with the next statement (the failing one is skipped).
+        let mut pch = Ch::new(&s[2]);
+        let _ = pch.u64();
+        let planted = if pch.chance(1, 3) { plant_errors(&mut built, &mut pch) } else { 0 };
+        out.class_if(planted > 0, "planted-error-statements");
         out.class_if(cfg.bus, "wide-bus");
         built.prog.visit_stmts(&mut |st, _| {
             if let crate::model::Stmt::Row(_, es) | crate::model::Stmt::Repeat(_, _, es) = st {
@@ -81,7 +145,8 @@ impl Property for C01 {
         render_case(&mut out, &text, &built.sigs, Some(&spec));
         let f = feats(&built);
         feat_classes(&mut out, &f);
-        let t = ri::run(&built.prog, &built.sigs, &spec, &ri::RiOpts::default());
+        let ropts = ri::RiOpts { continue_after_expression_error: true, ..Default::default() };
+        let t = ri::run(&built.prog, &built.sigs, &spec, &ropts);
         fact_classes(&mut out, &t);
         if matches!(t.end, ri::RiEnd::StepCap) && t.items.is_empty() {
             out.discard("step-cap-before-first-row");
@@ -91,12 +156,18 @@ impl Property for C01 {
             out.discard("hazard-in-total-profile");
             return out;
         }
+        let n_err = t.items.iter().filter(|i| matches!(i, ri::RiItem::Hazard { .. })).count();
+        out.class_if(n_err > 0, "error-items-due");
+        out.class_if(
+            n_err > 0 && t.items.iter().skip_while(|i| !matches!(i, ri::RiItem::Hazard { .. })).any(|i| matches!(i, ri::RiItem::Row(r) if r.depth > 0)),
+            "row-in-loop-after-error-item",
+        );
         let Some(tc) = load_wellformed(&mut out, "c01", &text, &built.sigs) else {
             return out;
         };
-        let real = run_real(&tc, &built.sigs, &spec, &RunOpts { max_next: next_budget(&t), fuel: fuel_for(t.facts.steps), ..Default::default() });
+        let real = run_real(&tc, &built.sigs, &spec, &RunOpts { max_next: next_budget(&t), fuel: fuel_for(t.facts.steps), continue_after_error: true, ..Default::default() });
         if let Some((k, m)) = trace_diff(&t, &real, Projection::INPUTS_EXPECTED) {
-            if !k.starts_with("panic:") && !still_differs_with_real_call_indices(&built.prog, &built.sigs, &spec, &ri::RiOpts::default(), &real, Projection::INPUTS_EXPECTED) {
+            if !k.starts_with("panic:") && !still_differs_with_real_call_indices(&built.prog, &built.sigs, &spec, &ropts, &real, Projection::INPUTS_EXPECTED) {
                 out.class("difference-caused-by-call-protocol-only");
                 return out;
             }
